@@ -147,6 +147,41 @@ func runCase(r *mon.Run, c gen.EdCase) {
 			r.Violate("VerifyWithOptions/preset-"+name, fmt.Sprintf("preset %s: got=%v panic=%v want=%v (%s) family=%s", name, got, pan, want, facts.Reason(p.fl), c.Fam), c)
 		}
 	}
+	// one option struct kept by the caller and toggled between the variants with the context unchanged (possible when
+	// the message is 64 bytes long): each decision is the predicate's for the options as they are at the time of the call
+	if len(pk) == 32 && len(msg) == 64 && c.Ctx != "" && c.Variant != 0 {
+		ro := &ed25519.Options{Context: string(mon.UnHex(c.Ctx)), Verify: ed25519.VerifyOptionsDefault}
+		for step, variant := range []int{3 - c.Variant, c.Variant, 3 - c.Variant, c.Variant} {
+			ro.Hash = 0
+			flagOctet := byte(0)
+			if variant == 2 {
+				ro.Hash = crypto.SHA512
+				flagOctet = 1
+			}
+			f2 := ref.Facts(pk, msg, sig, ref.Dom2(flagOctet, mon.UnHex(c.Ctx)))
+			want := f2.Verify(ref.Flags{SmallR: true})
+			for _, byValue := range []bool{false, true} {
+				use := ro
+				if byValue {
+					cp := *ro
+					use = &cp
+				}
+				var got, got2 bool
+				pan, _ := mon.Try(func() { got = ed25519.VerifyWithOptions(pk, msg, sig, use) })
+				pan2 := false
+				if expErr == nil {
+					pan2, _ = mon.Try(func() { got2 = ed25519.VerifyExpandedWithOptions(exp, msg, sig, use) })
+				} else {
+					got2 = want
+				}
+				r.EvalN(2)
+				r.Hist("reused-option-struct/variant-toggled")
+				if pan || pan2 || got != want || got2 != want {
+					r.Violate(fmt.Sprintf("VerifyWithOptions/reused-option-struct/want=%v", want), fmt.Sprintf("step %d (variant %d, by-value copy=%v): plain=%v expanded=%v panic=%v/%v, predicate for the current options: %v; family %s", step, variant, byValue, got, got2, pan, pan2, want, c.Fam), c)
+				}
+			}
+		}
+	}
 	r.Sample(familyClass(c.Fam), c)
 }
 
